@@ -260,6 +260,13 @@ fn op126<RK: RadioKind>(r: &mut RK, refc: &mut c126::Context<Spi126>, c: &Case, 
             refc.set_standby(c126::sx126x_standby_cfgs_e::SX126X_STANDBY_CFG_RC);
             { ok(drive(r.set_standby())) }
         }
+        "reset" => {
+            // the reset line is pulsed: the chip's registers are back at their power-on values on both sides (the
+            // reference driver keeps no state, so there is nothing else to do for it)
+            ours.borrow_mut().regs.clear();
+            theirs.borrow_mut().regs.clear();
+            { ok(drive(r.reset(&mut Dly))) }
+        }
         "freq" => {
             refc.set_rf_freq(p(0) as u32);
             { ok(drive(r.set_channel(p(0) as u32))) }
@@ -463,10 +470,14 @@ fn eval126(c: &Case) -> Vec<(String, String)> {
     let ours = wire(c.prior);
     let theirs = wire(c.prior);
     let r = catch(|| {
-        match &c.pre {
-            Some(pre) => run126(&[pre.as_ref(), c], &ours, &theirs),
-            None => run126(&[c], &ours, &theirs),
+        // (the chain of prior operations, oldest first)
+        let mut chain: Vec<&Case> = vec![c];
+        let mut cur = c;
+        while let Some(pre) = &cur.pre {
+            chain.insert(0, pre.as_ref());
+            cur = pre.as_ref();
         }
+        run126(&chain, &ours, &theirs)
     });
     match r {
         Err(p) => vec![(format!("C13|sx126x|{}|panic|{}", c.op, panic_site(&p)), p)],
@@ -478,7 +489,11 @@ fn eval126(c: &Case) -> Vec<(String, String)> {
             if a != b {
                 let i = a.iter().zip(b.iter()).position(|(x, y)| x != y).unwrap_or(a.len().min(b.len()));
                 let f = |o: Option<&(Vec<u8>, usize)>| o.map(|x| format!("{} ({} clocked)", hex(&x.0), x.1)).unwrap_or("-".into());
-                let pre = if c.pre.is_some() { "|after-prior-op" } else { "" };
+                let pre = match &c.pre {
+                    Some(p) if p.pre.is_some() => "|after-prior-ops",
+                    Some(_) => "|after-prior-op",
+                    None => "",
+                };
                 vec![(
                     format!("C13|sx126x|{}|bytes-differ{pre}", c.op),
                     format!("{} {:?} prior {:#x}: transaction {i}: ours {} / reference {} ({} vs {} transactions)", c.chip, c.p, c.prior, f(a.get(i)), f(b.get(i)), a.len(), b.len()),
@@ -787,8 +802,125 @@ fn eval127(c: &Case) -> Vec<(String, String)> {
     }
 }
 
+// ------------------------------------------------------------------ SX127x: the driver object keeps no hidden state
+//
+// The reference driver is stateless: every operation is a function of its arguments and of the chip's registers.
+// Ours must therefore leave the same register file whether a sequence X ; M ; Y runs on ONE driver instance or Y is
+// run by a FRESH instance on the registers X ; M left behind (M: nothing, a chip reset, sleep, standby). Together
+// with the single-operation comparison against the reference this extends "same bytes given the same register
+// state" to sequences.
+
+fn ours127<RK: RadioKind>(r: &mut RK, c: &Case, regs: &Rc<RefCell<Regs127>>, is72: bool) -> Result<(), String> {
+    let p = |i: usize| c.p.get(i).copied().unwrap_or(0);
+    let ok = |x: Option<Result<(), RadioError>>| -> Result<(), String> {
+        match x {
+            Some(Ok(())) => Ok(()),
+            other => Err(format!("{:?}", other.map(|e| e.err()))),
+        }
+    };
+    match c.op.as_str() {
+        "none" => Ok(()),
+        "reset" => {
+            let fresh = Regs127::new(is72, None);
+            regs.borrow_mut().regs = fresh.regs;
+            ok(drive(r.reset(&mut Dly)))
+        }
+        "standby" => ok(drive(r.set_standby())),
+        "sleep" => {
+            ok(drive(r.set_standby()))?;
+            ok(drive(r.set_sleep(p(0) != 0, &mut Dly)))
+        }
+        "freq" => ok(drive(r.set_channel(p(0) as u32))),
+        "mod" => {
+            let mp = r.create_modulation_params(SFS[p(0) as usize].0, BWS[p(1) as usize].0, CRS[p(2) as usize].0, 868_100_000).map_err(|e| format!("{e:?}"))?;
+            ok(drive(r.set_modulation_params(&mp)))
+        }
+        "pkt" => {
+            let mp = r.create_modulation_params(SpreadingFactor::_7, Bandwidth::_125KHz, CodingRate::_4_5, 868_100_000).map_err(|e| format!("{e:?}"))?;
+            let pp = r.create_packet_params(p(0) as u16, p(1) != 0, p(2) as u8, p(3) != 0, false, &mp).map_err(|e| format!("{e:?}"))?;
+            ok(drive(r.set_packet_params(&pp)))
+        }
+        "sync" => {
+            let legacy = p(0) as u8;
+            ok(drive(r.set_lora_sync_word(u16::from_be_bytes([(legacy & 0xF0) | 0x04, ((legacy & 0x0F) << 4) | 0x04]))))
+        }
+        "symbtimeout" => ok(drive(r.do_rx(RxMode::Single(p(0) as u16)))),
+        "power" => ok(drive(r.set_tx_power_and_ramp_time(p(0) as i32, None, true))),
+        "irq" => ok(drive(r.set_irq_params(Some(RadioMode::Transmit)))),
+        other => Err(format!("unknown op {other}")),
+    }
+}
+
+/// Runs `first` on one instance and `rest` on another (or, with `split` false, everything on one instance); returns
+/// the register file left behind.
+fn run127_split(chip: &str, first: &[&Case], rest: &[&Case], split: bool) -> Result<[u8; 128], String> {
+    let is72 = chip.starts_with("sx1272");
+    let boost = chip.ends_with("-boost");
+    let regs = Rc::new(RefCell::new(Regs127::new(is72, None)));
+    macro_rules! go {
+        ($chipv:expr) => {{
+            let mk = || sx127x::Sx127x::new(Spi127(regs.clone()), Iv, sx127x::Config { chip: $chipv, tcxo_used: false, tx_boost: boost, rx_boost: false });
+            let mut a = mk();
+            for c in first {
+                ours127(&mut a, c, &regs, is72)?;
+            }
+            if split {
+                let mut b = mk();
+                for c in rest {
+                    ours127(&mut b, c, &regs, is72)?;
+                }
+            } else {
+                for c in rest {
+                    ours127(&mut a, c, &regs, is72)?;
+                }
+            }
+        }};
+    }
+    if is72 {
+        go!(sx127x::Sx1272)
+    } else {
+        go!(sx127x::Sx1276)
+    }
+    let r = regs.borrow().regs;
+    Ok(r)
+}
+
+fn eval127_stateless(c: &Case) -> Vec<(String, String)> {
+    // c = Y, c.pre = M, c.pre.pre = X
+    let (Some(m), Some(x)) = (c.pre.as_deref(), c.pre.as_deref().and_then(|m| m.pre.as_deref())) else {
+        return vec![("SKIP".into(), "not a triple".into())];
+    };
+    let one = catch(|| run127_split(&c.chip, &[x, m], &[c], false));
+    let two = catch(|| run127_split(&c.chip, &[x, m], &[c], true));
+    let fam = if c.chip.starts_with("sx1272") { "sx1272" } else { "sx1276" };
+    match (one, two) {
+        (Err(p), _) | (_, Err(p)) => vec![(format!("C13|{fam}|{}|panic|{}", c.op, panic_site(&p)), p)],
+        (Ok(Err(e)), _) | (_, Ok(Err(e))) => vec![("SKIP".into(), e)],
+        (Ok(Ok(a)), Ok(Ok(b))) => {
+            let mut v = vec![];
+            for ad in 1..128usize {
+                if ad != 0x12 && a[ad] != b[ad] {
+                    v.push((
+                        format!("C13|{fam}|{}|driver-state-changes-the-outcome|after-{}", c.op, m.op),
+                        format!(
+                            "{}: {} {:?} ; {} {:?} ; {} {:?}: register {ad:#04x} is {:#04x} when one driver instance runs the sequence and {:#04x} when a fresh instance (as stateless as the reference driver) runs the last operation on the same registers",
+                            c.chip, x.op, x.p, m.op, m.p, c.op, c.p, a[ad], b[ad]
+                        ),
+                    ));
+                    break;
+                }
+            }
+            v
+        }
+    }
+}
+
 fn eval(c: &Case) -> Vec<(String, String)> {
-    if c.chip.starts_with("sx127") { eval127(c) } else { eval126(c) }
+    if c.chip.starts_with("sx127") {
+        if c.pre.is_some() { eval127_stateless(c) } else { eval127(c) }
+    } else {
+        eval126(c)
+    }
 }
 
 fn freqs(th: bool) -> Vec<u32> {
@@ -974,6 +1106,71 @@ fn main() {
             }
         }
     }
+    // depth-3 on one driver instance: X ; M ; Y with M in {sleep cold, sleep warm, standby, chip reset} and Y the same
+    // kind of operation as X (same parameters and others): whatever the driver remembers of X must not change what it
+    // sends for Y (the stateless reference sends it in full every time)
+    let chain = |chip: &str, x: &Case, m: &Case, y: &Case| -> Case {
+        let mut xm = Case { chip: chip.into(), ..m.clone() };
+        xm.pre = Some(Box::new(Case { chip: chip.into(), ..x.clone() }));
+        let mut c = Case { chip: chip.into(), ..y.clone() };
+        c.pre = Some(Box::new(xm));
+        c
+    };
+    let mids126 = vec![mk("sx1262", "sleep", vec![0], 0), mk("sx1262", "sleep", vec![1], 0), mk("sx1262", "standby", vec![], 0), mk("sx1262", "reset", vec![], 0)];
+    let mut stateful126 = rmw.clone();
+    stateful126.extend([
+        mk("sx1262", "freq", vec![868_300_000], 0x00),
+        mk("sx1262", "power", vec![14, 1], 0x00),
+        mk("sx1262", "power", vec![0, 1], 0x00),
+        mk("sx1262", "sync", vec![0x12], 0x00),
+        mk("sx1262", "base", vec![0, 0], 0x00),
+        mk("sx1262", "base", vec![0x80, 0], 0x00),
+        mk("sx1262", "rx", vec![300], 0x00),
+        mk("sx1262", "irq", vec![3], 0x00),
+        mk("sx1262", "calimg", vec![868_100_000], 0x00),
+        mk("sx1262", "calimg", vec![433_100_000], 0x00),
+    ]);
+    for chip in ["sx1262", "sx1261", "stm32wl-hp"] {
+        for x in &stateful126 {
+            for m in &mids126 {
+                for y in stateful126.iter().filter(|y| y.op == x.op) {
+                    cases.push(chain(chip, x, m, y));
+                }
+            }
+        }
+    }
+    let mids127 = vec![mk("sx1276", "none", vec![], 0), mk("sx1276", "reset", vec![], 0), mk("sx1276", "sleep", vec![0], 0), mk("sx1276", "sleep", vec![1], 0), mk("sx1276", "standby", vec![], 0)];
+    let stateful127 = vec![
+        mk("sx1276", "freq", vec![868_100_000], 0),
+        mk("sx1276", "freq", vec![433_175_000], 0),
+        mk("sx1276", "mod", vec![7, 7, 0], 0),
+        mk("sx1276", "mod", vec![6, 7, 0], 0),
+        mk("sx1276", "mod", vec![2, 9, 3], 0),
+        mk("sx1276", "pkt", vec![8, 0, 32, 1], 0),
+        mk("sx1276", "pkt", vec![8, 0, 32, 0], 0),
+        mk("sx1276", "pkt", vec![12, 1, 200, 1], 0),
+        mk("sx1276", "sync", vec![0x34], 0),
+        mk("sx1276", "sync", vec![0x12], 0),
+        mk("sx1276", "symbtimeout", vec![8], 0),
+        mk("sx1276", "symbtimeout", vec![300], 0),
+        mk("sx1276", "symbtimeout", vec![600], 0),
+        mk("sx1276", "symbtimeout", vec![1023], 0),
+        mk("sx1276", "power", vec![0], 0),
+        mk("sx1276", "power", vec![2], 0),
+        mk("sx1276", "power", vec![14], 0),
+        mk("sx1276", "power", vec![17], 0),
+        mk("sx1276", "power", vec![20], 0),
+        mk("sx1276", "irq", vec![], 0),
+    ];
+    for chip in ["sx1276", "sx1276-boost", "sx1272", "sx1272-boost"] {
+        for x in &stateful127 {
+            for m in &mids127 {
+                for y in stateful127.iter().filter(|y| y.op == x.op) {
+                    cases.push(chain(chip, x, m, y));
+                }
+            }
+        }
+    }
     // SX127x (SX1276): chip-visible outcome
     for chip in ["sx1276", "sx1276-boost", "sx1272", "sx1272-boost"] {
         cases.push(mk(chip, "standby", vec![], 0));
@@ -1060,7 +1257,7 @@ fn main() {
         "evaluations": ctx.evals(),
         "distinct_nontrivial": compared.load(Ordering::Relaxed),
         "per_operation": per_op_json,
-        "rule": "per shared operation the full product of its parameter domain, run on the real lora-phy driver and on Semtech's SWL2001 C driver (smtc-modem-cores) from the same register state: sleep warm/cold, standby, RF frequency (every 100 Hz LoRaWAN channel in thorough + stride over 137-1020 MHz), LoRa modulation parameters (SF x BW x CR x prior register values), packet parameters (preamble set x header x payload length x CRC x IQ x prior values), sync word (all 256), buffer base, buffer/FIFO writes of every length 0..255, TX start, IRQ masks per mode, IRQ clear, RX start with every symbol timeout, CAD per SF, image calibration per band, TX continuous wave, PA configuration + TX parameters for every power -128..127 x ramp x prior values, status reads; depth-2 sequences of the read-modify-write operations. SX126x: equality of the canonical wire form (opcode + parameters with trailing NOPs trimmed, total bytes clocked); SX127x: equality of the chip-visible outcome (register file subset stated per operation, FIFO stream)",
+        "rule": "per shared operation the full product of its parameter domain, run on the real lora-phy driver and on Semtech's SWL2001 C driver (smtc-modem-cores) from the same register state: sleep warm/cold, standby, RF frequency (every 100 Hz LoRaWAN channel in thorough + stride over 137-1020 MHz), LoRa modulation parameters (SF x BW x CR x prior register values), packet parameters (preamble set x header x payload length x CRC x IQ x prior values), sync word (all 256), buffer base, buffer/FIFO writes of every length 0..255, TX start, IRQ masks per mode, IRQ clear, RX start with every symbol timeout, CAD per SF, image calibration per band, TX continuous wave, PA configuration + TX parameters for every power -128..127 x ramp x prior values, status reads; depth-2 sequences of the read-modify-write operations; depth-3 sequences X ; {sleep cold, sleep warm, standby, chip reset} ; Y of the same kind of operation on one driver instance (SX126x against the reference; SX127x against a fresh instance of the driver on the same registers, which the single-operation comparison ties to the reference). SX126x: equality of the canonical wire form (opcode + parameters with trailing NOPs trimmed, total bytes clocked); SX127x: equality of the chip-visible outcome (register file subset stated per operation, FIFO stream)",
         "exhaustive": true,
     });
     let replayer = |cj: &Value| -> Vec<String> {
